@@ -8,22 +8,22 @@ use fst::raw::{self, Builder, Fst};
 use fst::{Map, MapBuilder, Set, SetBuilder};
 
 #[derive(Clone, Debug, PartialEq)]
-enum Verdict {
+pub enum Verdict {
     Accept,
     Dup(Vec<u8>),
     Ooo(Vec<u8>, Vec<u8>),
 }
 
-struct Model {
+pub struct Model {
     set_mode: bool,
     last: Option<Vec<u8>>,
-    accepted: Vec<(Vec<u8>, u64)>,
+    pub accepted: Vec<(Vec<u8>, u64)>,
 }
 impl Model {
-    fn new(set_mode: bool) -> Model {
+    pub fn new(set_mode: bool) -> Model {
         Model { set_mode, last: None, accepted: vec![] }
     }
-    fn step(&mut self, k: &[u8], v: u64) -> Verdict {
+    pub fn step(&mut self, k: &[u8], v: u64) -> Verdict {
         if let Some(last) = &self.last {
             if k == &last[..] {
                 if self.set_mode {
